@@ -26,8 +26,7 @@ BOUNDS = {
              'file searchers: complete product described above',
     'thorough': 'same, plus 3 graphs and genTexts/ignoreErrors toggles for the searcher lists',
 }
-ASSUMPTIONS = ['mtime comparisons use whole seconds (os.stat()[8])',
-               'PyPackageSearcher is exercised for regular (non-egg) packages only']
+ASSUMPTIONS = [               'PyPackageSearcher is exercised for regular (non-egg) packages only']
 
 ANS = ['absent', 'fresh', 'error', 'normal']
 
@@ -213,6 +212,53 @@ class FileSearchers(object):
                     del sys.modules[k]
                 importlib.invalidate_caches()
             shutil.rmtree(d, ignore_errors=True)
+
+
+class SeveralSearchers(object):
+    name = 'several-searchers-in-one-process'
+    describe = ('two or three AnyFileSearcher objects configured one after the other for DIFFERENT extensions (.json / .py / .txt, '
+                'given as a list or a tuple), over the same or separate directories holding a fresh FOO-MIB file of one extension: '
+                'each searcher answers for its own extensions only, whatever the others were told')
+
+    EXTS = ['.json', '.py', '.txt']
+
+    def blocks(self, tier):
+        return [{'n': n} for n in (2, 3)]
+
+    def cases(self, block, tier):
+        for exts in itertools.permutations(self.EXTS, block['n']):
+            for present in self.EXTS:
+                for shared in (0, 1):
+                    for as_tuple in (0, 1):
+                        yield {'exts': list(exts), 'present': present, 'shared': shared, 'tuple': as_tuple}
+
+    def run_case(self, case):
+        from pysmi.searcher.anyfile import AnyFileSearcher
+        dirs = []
+        try:
+            n = len(case['exts'])
+            base = scratch()
+            dirs.append(base)
+            ds = [base] * n if case['shared'] else [base] + [scratch() for _ in range(n - 1)]
+            dirs += [d for d in ds[1:] if d != base]
+            for d in set(ds):
+                populate(d, 'FOO-MIB', case['present'], 1, None, 0, 0, 0, 1)
+            searchers = []
+            for d, e in zip(ds, case['exts']):
+                searchers.append(AnyFileSearcher(d).setOptions(exts=(e,) if case['tuple'] else [e]))
+            vs, got_all = [], []
+            for i, (sr, e) in enumerate(zip(searchers, case['exts'])):
+                got = ask(sr, 'FOO-MIB', False)
+                got_all.append(got)
+                want = 'not-modified' if e == case['present'] else 'not-found'
+                if got != want:
+                    vs.append(('C10|several-searchers|searcher-%d-of-%d|answered-%s-where-%s' % (i + 1, n, got, want),
+                               'searchers for %r (in that order of construction), file FOO-MIB%s present; searcher for %s says %s' % (
+                                   case['exts'], case['present'], e, got)))
+            return tuple(got_all), vs, n
+        finally:
+            for d in dirs:
+                shutil.rmtree(d, ignore_errors=True)
 
 
 class ReaderToSearcher(object):
@@ -416,4 +462,4 @@ class SearcherHistories(object):
                 importlib.invalidate_caches()
             shutil.rmtree(root, ignore_errors=True)
 
-FAMILIES = [SearcherLists(), FileSearchers(), ReaderToSearcher(), NoDepsFileNames(), SearcherHistories()]
+FAMILIES = [SearcherLists(), FileSearchers(), SeveralSearchers(), ReaderToSearcher(), NoDepsFileNames(), SearcherHistories()]
